@@ -55,7 +55,7 @@ func vfPoolMicroOn(size int, fault, role string, real bool) func(s *vrt.Sched) (
 		builder := func(add AddNewMux, ctx context.Context) (MuxProvider, error) {
 			if real {
 				e.fn = vfNewFakeNet()
-				e.fn.afterAccept = func() { vrt.Point("fakenet", "accepted") }
+				e.fn.afterConn = func() { vrt.Point("fakenet", "accepted") }
 				vrt.SetFakeNet(&vrt.FakeNet{Dial: e.fn.dial, Listen: e.fn.listen})
 				setting := config.TCPTLSInfo{ConnectionString: "verif-peer:7233"}
 				labels := []string{"verif-peer:7233", "mux", "micro"}
@@ -64,7 +64,7 @@ func vfPoolMicroOn(size int, fault, role string, real bool) func(s *vrt.Sched) (
 				}
 				return NewMuxEstablisherProvider(ctx, "verif", add, int64(size), setting, labels, logger)
 			}
-			e.cp = &vfConnProvider{lifetime: ctx, offers: make(chan vfOffer)}
+			e.cp = &vfConnProvider{lifetime: ctx, offers: make(chan vfOffer), afterConn: func() { vrt.Point("connprovider", "connected") }}
 			sessionFn := func(conn net.Conn) (*yamux.Session, error) {
 				var sess *yamux.Session
 				var err error
